@@ -86,7 +86,8 @@ def step32 (s : St) (t : Nat) : Option St :=
         some (setThr { s with head := wadd id 1, delivered := s.delivered ++ [(t, id, v)] } t (.done (.got v)))
       else some s
   -- `tail.load().overflowing_sub(head.load()).0`
-  | .lLen => some (setThr s t (.done (.len (len32 s.tail s.head))))
+  | .lLen => some (setThr s t (.lLenH s.tail))
+  | .lLenH tl => some (setThr s t (.done (.len (len32 tl s.head))))
 
 /-- environment actions: identical to M1's except that slot indices are taken from residues -/
 def apply32 (s : St) : Act → Option St
@@ -137,6 +138,7 @@ def imgLoc : Loc → Loc
   | .cChkTail h w       => .cChkTail (wrap h) w
   | .cRead id           => .cRead (wrap id)
   | .cRelease id v      => .cRelease (wrap id) v
+  | .lLenH tl           => .lLenH (wrap tl)
   | l => l
 
 def img (s : St) : St :=
